@@ -18,6 +18,18 @@ CLAIMED = {
         text="Lean theorems: the attribute delegates iff its literal is one modifier-free placeholder referring to its only argument / a binding (transparent_iff_bare), other indices and modifiers never delegate, the two bodies are pass-through resp. inert; the model of the Display-like/Debug expanders is compared token-for-token (fmt body, where-clause) with the working-tree expanders on generated items, the decision with an oracle built on rustc_parse_format, and ~4k (type, outer spec) pairs are run with the real macro",
         note="Lean kernel; model tied by differential run; std's formatter semantics (Trait::fmt sees caller options, write! ignores them) is modelled in two lines and validated by the behaviour grid each run",
         ref="DESIGN.md §4 C05"),
+    "C04": dict(
+        level="proof",
+        technique="Lean 4 theorems about bounded_types / generate_bounds / contains_generics + where-clause correspondence + by-construction oracle + rustc type-checking of a generated sample",
+        text="Lean theorems: bounded_types is exactly one (field, trait) per placeholder denoting a field (boundedTypes_iff), every such generic field is bounded (sufficient), every inferred bound sits on a field whose type mentions a parameter (not excessive), contains_generics == 'mentions a type parameter' over the whole type syntax (mutual induction); the model's where-clauses are compared with the working tree's on generated items, the inferred predicate set with the set needed by construction on 6k generic items, and ~60 generic types are type-checked with the real macro with unformatted parameters instantiated by a fmt-less type",
+        note="Lean kernel; model tied by differential run; rustc's trait solving is the judge of sufficiency for the compiled sample only; one known finding (reference + owned field of the same parameter)",
+        ref="DESIGN.md §4 C04"),
+    "C07": dict(
+        level="proof",
+        technique="Lean 4 theorems about shared_attr_info / generate_body / expand_enum + correspondence + every variant printed with the real macro against the documented rule",
+        text="Lean theorems: an enum-level literal mentioning _variant wraps every variant around the variant's own text (wraps_every_variant), the bare {_variant} is the identity, a literal without _variant is used only for unattributed variants, _variant with a specifier and Debug enum-level literals are rejected; model compared with the working tree on generated enums; 120 generated enums are printed variant by variant with the real macro and compared with a reference written with plain format! calls",
+        note="Lean kernel; model tied by differential run; convert_case is a parameter; the reference text is produced by std's format! in the same process",
+        ref="DESIGN.md §4 C07"),
 }
 
 NOT_APPLICABLE = {}
